@@ -2,12 +2,12 @@ package main
 
 import (
 	"bufio"
-	"os"
 	"bytes"
 	"crypto/sha1"
 	"encoding/binary"
 	"flag"
 	"fmt"
+	"os"
 	"sort"
 	"strings"
 	"sync"
@@ -42,7 +42,7 @@ type RecDisk struct {
 
 func NewRecDisk(sz uint64) *RecDisk { return &RecDisk{inner: NewSparseDisk(sz)} }
 
-func (d *RecDisk) Read(a uint64) []byte     { return d.inner.Read(a) }
+func (d *RecDisk) Read(a uint64) []byte      { return d.inner.Read(a) }
 func (d *RecDisk) ReadTo(a uint64, b []byte) { d.inner.ReadTo(a, b) }
 func (d *RecDisk) Size() uint64              { return d.inner.Size() }
 func (d *RecDisk) Close()                    {}
@@ -408,6 +408,7 @@ func cmdCrash(fs *flag.FlagSet, args []string) {
 	mix := fs.String("mix", "meta", "meta | data")
 	maxImages := fs.Int("images", 400, "crash images per workload (evenly spread when the trace offers more)")
 	disksz := fs.Uint64("disk", 20000, "disk size")
+	second := fs.Int("second", 0, "per workload: restart on this many crash images, serve more operations, crash again")
 	imgPath := fs.String("imgout", "", "file the images of the recovered logical disks go to (structure checker)")
 	onlySeed := fs.Uint64("wseed", 0, "replay: run only the workload with this seed")
 	onlyUnstable := fs.Bool("wunstable", true, "replay: the unstable option of that workload")
@@ -466,8 +467,20 @@ func cmdCrash(fs *flag.FlagSet, args []string) {
 		// writes all present, all missing, and each single one missing / alone present
 		cps, total := crashPoints(events, p0, *fromP, *toP, *maxImages, root)
 		checked, distinctStates := 0, map[int]bool{}
-		for _, c := range cps {
+		// checkOne: one crash image (on top of `base`, the disk the recorded run started from), recovered
+		// by the real server and compared with the reference states; returns the matching prefix or -1
+		checkOne := func(base map[uint64][]byte, events []recEvent, ops []crashOp, dumps []string, c cp, stage string) int {
 			img := buildImage(events, c.p, c.keep, c.dropAll)
+			if base != nil {
+				merged := make(map[uint64][]byte, len(base)+len(img))
+				for k, v := range base {
+					merged[k] = v
+				}
+				for k, v := range img {
+					merged[k] = v
+				}
+				img = merged
+			}
 			kmin, kmax := 0, 0
 			for i, o := range ops {
 				// a stable acknowledgement of an operation that changed something visible: it, and
@@ -494,14 +507,14 @@ func cmdCrash(fs *flag.FlagSet, args []string) {
 			rs.d = NewOverlay(*disksz, img)
 			ok := rs.guarded("recover", func() { rs.srv = nfs.MakeNfs(rs.d) })
 			if !ok {
-				emit("# ORACLE C01 recovery-crashed recovery from the image at crash point %d (%s) panicked or hung", c.p, c.desc)
-				continue
+				emit("# ORACLE C01 recovery-crashed workload seed %d (%s mix)%s: recovery from the image at crash point %d (%s) panicked or hung", wseed, *mix, stage, c.p, c.desc)
+				return -1
 			}
 			rs.srv.Unstable = unstable
 			rootfh := fh.MkRootFh3().Data
 			rs.objs[hx(rootfh)] = &objInfo{fh: rootfh, kind: 2}
 			rs.dirs[hx(rootfh)] = &dirInfo{names: map[string][]byte{}}
-			where := fmt.Sprintf("workload seed %d (%s mix) crash point %d (%s)", wseed, *mix, c.p, c.desc)
+			where := fmt.Sprintf("workload seed %d (%s mix)%s crash point %d (%s)", wseed, *mix, stage, c.p, c.desc)
 			if imgOut != nil {
 				// the recovered logical disk, before anything else touches it: half-freed objects allowed
 				emitImage(rs.srv.VerifFsState(), "recovered: "+where, false, true, nil, imgOut)
@@ -517,7 +530,6 @@ func cmdCrash(fs *flag.FlagSet, args []string) {
 					break
 				}
 			}
-			checked++
 			if match < 0 {
 				// which state is it, if any?
 				other := -1
@@ -539,9 +551,8 @@ func cmdCrash(fs *flag.FlagSet, args []string) {
 				if *mix == "data" {
 					prop = "C07"
 				}
-				emit("# ORACLE %s %s workload seed %d (%s mix): crash after %d of %d disk events (%s): the recovered file system %s; allowed: the state after k operations, %d <= k <= %d; %s", prop, key, wseed, *mix, c.p, len(events), c.desc, what, kmin, kmax, firstDiff(dumps[kmin], got))
+				emit("# ORACLE %s %s workload seed %d (%s mix)%s: crash after %d of %d disk events (%s): the recovered file system %s; allowed: the state after k operations, %d <= k <= %d; %s", prop, key, wseed, *mix, stage, c.p, len(events), c.desc, what, kmin, kmax, firstDiff(dumps[kmin], got))
 			} else {
-				distinctStates[match] = true
 				// the recovered server keeps serving
 				if why := rs.postCrashProbe(); why != "" {
 					emit("# ORACLE C01 recovered-server-broken workload seed %d (%s mix): after recovery at crash point %d (%s), state after %d operations: %s", wseed, *mix, c.p, c.desc, match, why)
@@ -566,8 +577,45 @@ func cmdCrash(fs *flag.FlagSet, args []string) {
 			if !rs.dead {
 				rs.srv.ShutdownNfs()
 			}
+			return match
 		}
-		emit("crashsum workload=%d events=%d crashpoints=%d checked=%d distinct-recovered-states=%d", w, len(events), total, checked, len(distinctStates))
+		for _, c := range cps {
+			m := checkOne(nil, events, ops, dumps, c, "")
+			checked++
+			if m >= 0 {
+				distinctStates[m] = true
+			}
+		}
+		// repeated crashes: restart on a crash image, serve more operations on a recording disk, crash again
+		second2, checked2 := 0, 0
+		for i := 0; i < *second && len(cps) > 0; i++ {
+			c1 := cps[(2*i+1)*len(cps)/(2**second)]
+			base := buildImage(events, c1.p, c1.keep, c1.dropAll)
+			rec2 := &RecDisk{inner: NewOverlay(*disksz, base)}
+			mix2 := *mix
+			if mix2 == "free" {
+				mix2 = "meta"
+			}
+			ops2, dumps2, sb2 := crashWorkload(wseed+uint64(c1.p)*7919, mix2, *nops/2+4, *disksz, unstable, rec2)
+			if sb2.dead {
+				emit("# ORACLE C01 recovered-server-crashes workload seed %d (%s mix): the server restarted on the image of crash point %d (%s) crashed while serving further operations", wseed, *mix, c1.p, c1.desc)
+				continue
+			}
+			sb2.waitIdle()
+			sb2.srv.VerifFsState().Txn.Flush()
+			end2 := rec2.pos()
+			sb2.close()
+			rec2.mu.Lock()
+			events2 := rec2.events[:end2]
+			rec2.mu.Unlock()
+			cps2, _ := crashPoints(events2, 0, 0, 1<<30, *maxImages/(2**second)+8, root)
+			second2++
+			for _, c2 := range cps2 {
+				checkOne(base, events2, ops2, dumps2, c2, fmt.Sprintf(", restarted on the image of crash point %d (%s) and served %d more operations", c1.p, c1.desc, len(ops2)))
+				checked2++
+			}
+		}
+		emit("crashsum workload=%d events=%d crashpoints=%d checked=%d distinct-recovered-states=%d second-crash-runs=%d second-crash-images=%d", w, len(events), total, checked+checked2, len(distinctStates), second2, checked2)
 	}
 }
 
